@@ -13,6 +13,7 @@ import Cmr.Graph
 import Cmr.SP
 import Cmr.Balanced
 import Cmr.Equimod
+import Cmr.Text
 namespace Cmr
 
 inductive Verdict where
@@ -688,6 +689,105 @@ def judgeEquimod : P Verdict := do
   if exp.contains (v == "yes", k) then return .ok s!"equimod:{fn}:{v}:{if k > 1 then "k>1" else s!"k={k}"}"
   else return .fail s!"equimod:{fn}" s!"impl=({v},{k}) model={repr exp}"
 
+
+/-! ### text formats -/
+
+def typeRange (ty : String) : Int × Int :=
+  if ty == "c" then (-128, 127) else (-2147483648, 2147483647)
+
+open P in
+def judgeParse : P Verdict := do
+  let fmt ← tok
+  let ty ← tok
+  let hex ← tok
+  expect "=>"
+  let status ← tok
+  let some bytes := hexBytes hex | return .badOp "hex"
+  let tag := s!"parse:{fmt}:{ty}"
+  if fmt == "submat" then
+    match parseSubmatText bytes with
+    | none =>
+      if status == "err:INPUT" then return .ok s!"{tag}:rejected" else return .fail tag s!"malformed submatrix text accepted: {status}"
+    | some st =>
+      if status != "ok" then return .fail tag s!"well-formed text rejected: {status}"
+      let m ← nat; let n ← nat
+      let some (rs, cs) ← submat | return .fail tag "no submatrix"
+      if m == st.numRows && n == st.numCols && rs == st.rows.map (fun (x : Nat) => (x : Int)) && cs == st.cols.map (fun (x : Nat) => (x : Int)) then return .ok tag
+      else return .fail tag s!"different submatrix: model {repr st}"
+  if ty == "d" then return .skip s!"{tag}:double"
+  let (lo, hi) := typeRange ty
+  let expected := if fmt == "dense" then parseDenseText lo hi bytes else parseSparseText lo hi bytes
+  -- tokens like "1." that strtod reads as integers: either outcome is admissible
+  let lenient := if fmt == "dense" then parseDenseTextLenient lo hi bytes else expected
+  match expected, lenient with
+  | .inputError _, .ok m n M =>
+    if status == "err:INPUT" then return .ok s!"{tag}:lenient-rejected"
+    if status != "ok" then return .fail tag s!"status {status}"
+    let some A ← csr | return .fail tag "no matrix"
+    match checkCsr A m n with
+    | .error e => return .fail s!"{tag}:csr" e
+    | .ok R => if R == M then return .ok s!"{tag}:lenient-accepted" else return .fail s!"{tag}:different" s!"impl={matToString R} model={matToString M}"
+  | _, _ => pure ()
+  match expected with
+  | .inputError why =>
+    if status == "err:INPUT" then
+      let rest ← get
+      if rest.contains "outs=1" then return .fail s!"{tag}:object-on-error" "an object was handed out together with the error"
+      return .ok s!"{tag}:rejected"
+    else return .fail s!"{tag}:accepted-malformed" s!"malformed text ({why}) gave {status}"
+  | .ok m n M =>
+    if status != "ok" then return .fail s!"{tag}:rejected-wellformed" s!"well-formed text rejected: {status}"
+    let some A ← csr | return .fail tag "no matrix"
+    match checkCsr A m n with
+    | .error e => return .fail s!"{tag}:csr" e
+    | .ok R => if R == M then return .ok tag else return .fail s!"{tag}:different" s!"impl={matToString R} model={matToString M}"
+
+open P in
+def judgePrint : P Verdict := do
+  let fmt ← tok
+  let ty ← tok
+  let (m, n, M) ← denseMat
+  expect "=>"
+  let status ← tok
+  let tag := s!"print:{fmt}:{ty}"
+  if status != "ok" then return .fail tag s!"status {status}"
+  let hex ← tok
+  let some bytes := hexBytes hex | return .badOp "hex"
+  let (lo, hi) := typeRange ty
+  let parsed := if fmt == "dense" then parseDenseText lo hi bytes else parseSparseText lo hi bytes
+  match parsed with
+  | .inputError why => return .fail s!"{tag}:text" s!"written text is not in the documented format ({why})"
+  | .ok m' n' M' =>
+    if !(m' == m && n' == n && M' == M) then return .fail s!"{tag}:text" s!"written text denotes {m'}x{n'} {matToString M'}"
+    -- read back by the library
+    let t ← peek
+    if (t.getD "").startsWith "err:" then return .fail s!"{tag}:readback" s!"library cannot read its own output: {t.getD ""}"
+    let some A ← csr | return .fail s!"{tag}:readback" "no matrix read back"
+    match checkCsr A m n with
+    | .error e => return .fail s!"{tag}:csr" e
+    | .ok R => if R == M then return .ok tag else return .fail s!"{tag}:readback" s!"read back {matToString R}"
+
+open P in
+def judgePrintsub : P Verdict := do
+  let m ← nat; let n ← nat; let nr ← nat; let nc ← nat
+  let rs ← many nat nr
+  let cs ← many nat nc
+  expect "=>"
+  let status ← tok
+  if status != "ok" then return .fail "printsub" s!"status {status}"
+  let hex ← tok
+  let some bytes := hexBytes hex | return .badOp "hex"
+  match parseSubmatText bytes with
+  | none => return .fail "printsub:text" "written text is not in the documented submatrix format"
+  | some st =>
+    if !(st.numRows == m && st.numCols == n && st.rows == rs && st.cols == cs) then return .fail "printsub:text" s!"written text denotes {repr st}"
+    let t ← peek
+    if (t.getD "").startsWith "err:" then return .fail "printsub:readback" s!"library cannot read its own output: {t.getD ""}"
+    let m2 ← nat; let n2 ← nat
+    let some (rs2, cs2) ← submat | return .fail "printsub:readback" "nothing read back"
+    if m2 == m && n2 == n && rs2 == rs.map (fun (x : Nat) => (x : Int)) && cs2 == cs.map (fun (x : Nat) => (x : Int)) then return .ok "printsub"
+    else return .fail "printsub:readback" "read back a different submatrix"
+
 /-! ### dispatcher -/
 
 def runP (p : P Verdict) (toks : List String) : Verdict :=
@@ -718,6 +818,9 @@ def judgeLine (line : String) : Verdict :=
       | "pivot" => runP judgePivot toks
       | "mat" => runP judgeMat toks
       | "stack" => judgeStack (op.drop 1) L.status L.payload
+      | "parse" => runP judgeParse toks
+      | "print" => runP judgePrint toks
+      | "printsub" => runP judgePrintsub toks
       | "sp" => runP judgeSp toks
       | "camionx" => runP judgeCamionx toks
       | "balanced" => runP judgeBalanced toks
